@@ -1,6 +1,7 @@
 pub mod checker;
 pub mod crash;
 pub mod flagwatch;
+pub mod footprint;
 pub mod gsom;
 pub mod lkh;
 pub mod pop;
